@@ -45,3 +45,27 @@ Theorem C04_non_note_identical : forall e cats clef t,
   end.
 Proof. exact non_note_same_in_all_encodings. Qed.
 Print Assumptions C04_non_note_identical.
+
+(* the basic encoding is the extended one with the signifiers removed NOTE BY NOTE: for every chord (any number of
+   notes) and every category selection, both encodings list the same notes in the same order, joined by single
+   spaces; the basic one keeps exactly the duration-and-pitch part of each.  No note is lost, merged or moved.
+   [note_subs_ok]: the sub-token texts hold no space, no separator byte, and the duration / pitch ones are not empty
+   (true of everything the parser builds). *)
+From KV Require Import BekernProofs.
+Theorem C04_chord_basic_is_note_by_note : forall cats enc notes, notes <> [] -> forallb note_subs_ok notes = true ->
+  ekern_tokenize cats (TChord enc notes) = Ok (join " " (map (fun n => note_text (note_pair (keep_of cats) n)) notes)) /\
+  bekern_tokenize cats (TChord enc notes) = Ok (join " " (map (fun n => fst (note_pair (keep_of cats) n)) notes)).
+Proof. exact chord_bekern_note_by_note. Qed.
+Print Assumptions C04_chord_basic_is_note_by_note.
+
+Theorem C04_note_basic : forall cats n, note_subs_ok n = true ->
+  ekern_tokenize cats (TNoteRest n) = Ok (note_text (note_pair (keep_of cats) n)) /\
+  bekern_tokenize cats (TNoteRest n) = Ok (fst (note_pair (keep_of cats) n)).
+Proof. exact note_bekern. Qed.
+Print Assumptions C04_note_basic.
+
+(* string level: the reduction keeps the number of notes of ANY space-separated cell text *)
+Theorem C04_no_note_lost : forall notes, Forall note_clean notes -> notes <> [] ->
+  List.length (split_char space (bekern_of_ekern (join " " (map note_text notes)))) = List.length notes.
+Proof. exact bekern_keeps_every_note. Qed.
+Print Assumptions C04_no_note_lost.
